@@ -170,3 +170,15 @@ def r4(ctx, facts, cfg):
     ok = bool(cp) and not g.exists_path([g.entry_node], [g.exit_node], avoid_nodes=cp)
     ctx.ob("C08.R4d", "_exit:reports-before-terminating", ok,
            "the exit drain reports the remaining drop counts on every path before the backend terminates", fn=ex)
+    # R4e: a context never leaves with an unreported count: inside the clean-up, between selecting a context and removing it, the
+    # counters are reported (the thread has exited, so the count is final). A report that merely precedes the clean-up call is not
+    # enough: the flush path calls the clean-up on non-idle polls.
+    cu = facts.need(BW + "_cleanup_invalidated_thread_contexts", cfg)[0]
+    cg = cu.g
+    rem = cpos(cu, r"::remove_shared_invalidated_thread_context$")
+    rep = cpos(cu, r"::_check_failure_counter$") + cpos(cu, r"::get_and_reset_failure_counter$")
+    finds = cpos(cu, r"^std::find_if")
+    ok = bool(rem) and bool(rep) and bool(finds) and not cg.exists_path(finds, rem, avoid_nodes=rep)
+    ctx.ob("C08.R4e", "_cleanup_invalidated_thread_contexts:report-before-remove", ok,
+           "a dead thread's context is removed only after its drop count was reported in the same clean-up step (otherwise a flush "
+           "request processed while that thread's statements drain discards the count with the context)", fn=cu)
